@@ -299,8 +299,17 @@ class TemplateLookup(TemplateCollection):
             try:
                 # try returning from collection one
                 # more time in case concurrent thread already loaded
-                return self._collection[uri]
-            except KeyError:
+                template = self._collection[uri]
+                if (
+                    self.filesystem_checks
+                    and template.filename is not None
+                    and template.module._modified_time
+                    < os.stat(template.filename)[stat.ST_MTIME]
+                ):
+                    # loaded from content older than this call must see
+                    raise KeyError(uri)
+                return template
+            except (KeyError, OSError):
                 pass
             try:
                 if self.modulename_callable is not None:
